@@ -365,10 +365,21 @@ def run(repo, rep):
                         fe = ast.parse(ev.args[1], mode='eval').body
                     except SyntaxError:
                         fe = None
-                    if not (isinstance(fe, ast.IfExp) and norm(fe.body) == normal_p and norm(fe.orelse) == last_p):
+                    if isinstance(fe, ast.IfExp) and norm(fe.body) == normal_p and norm(fe.orelse) == last_p:
+                        test = norm(fe.test)
+                    elif ev.args[1] in (normal_p, last_p):
+                        # if/else with one flag per branch: the path condition that separates them is the test
+                        cc = [c_ for c_ in ev.conds if c_[:1] in '+-' and not c_[1:].startswith('iter:') and c_[1:] != ev.args[0]]
+                        if not cc:
+                            p4.append('flag %s is yielded unconditionally' % ev.args[1])
+                            continue
+                        pol_, test = cc[-1][0] == '+', cc[-1][1:]
+                        if (ev.args[1] == normal_p) != pol_:
+                            p4.append('flag expression: %s is yielded when %s is %s' % (ev.args[1], test, 'true' if pol_ else 'false'))
+                            continue
+                    else:
                         p4.append('flag expression %s is not "normal if has_next else last"' % ev.args[1])
                         continue
-                    test = norm(fe.test)
                     flaguse[fname] = 'normal-if-has-next'
                     if True:
                         # has_next = fp.read(1); pushed back iff truthy
